@@ -595,6 +595,11 @@ func (p *Program) sharedBytesOrigin(v ssa.Value) string {
 				return ""
 			}
 
+			// copies: the result is the callee's own allocation
+			if cn := p.CalleeName(x); cn == "slices.Clone" || cn == "bytes.Clone" {
+				return ""
+			}
+
 			// a callee that is given byte slices may return (storage of) one of them
 			for _, a := range CallArgs(x) {
 				if isBytes(a.Type()) {
